@@ -35,6 +35,9 @@ EXTRA_SMILES = [
     'c1ccc2cc3ccccc3cc2c1', 'C1CC2CC3CC1CC(C2)C3', 'c1ccccc1c1ccccc1', '[Na+].[Cl-]', 'CC(=O)[O-].[NH4+]', 'C[N+](C)(C)C',
     'OC(=O)c1ccccc1O', 'Oc1ccccn1', 'O=c1cccc[nH]1', 'CC(=O)CC(C)=O', 'NC(N)=N', 'Cc1ncc[nH]1', 'OC1=CC=NC=C1', 'CN=O', 'CC(O)=C',
     'C[N+](=O)[O-]', 'CN(=O)=O', 'C[S+](C)[O-]', 'Cl[Pt](Cl)(N)N', 'CC1=CC=CC=C1', 'C1=CC=CC=C1', 'N1C=CC=C1', 'c1cc[nH]c1',
+    '[NH3+]CCCCC([NH3+])C(=O)[O-]', '[O-]C(=O)CC(C(=O)[O-])[NH3+]', 'C[NH2+]CCc1ccc([O-])c(C([O-])=O)c1', '[Na+].[O-]C(=O)CCC([NH3+])C([O-])=O',
+    '[O-]C(=O)CCC(=O)[O-].[NH4+]', '[NH3+]CC[NH2+]CC([O-])=O', '[O-]c1ccccc1C([O-])=O.[K+]', 'C[N+](C)(C)CC([O-])=O', '[NH3+]CCS([O-])(=O)=O',
+    '[O-]P(=O)([O-])OCC[NH3+]', 'NC(CC(=O)C)C(=O)O', 'OC(=O)CC(=O)CCN', 'CC(=O)CC(C)NCC(O)=O', 'Cc1ccccc1C', 'Cc1ccc2ccccc2c1',
     'C1=CC=CC=CC=C1', 'c1ccc2[nH]ccc2c1', 'C[C@@](F)(Cl)Br', 'F[C@H](Cl)[C@@H](Br)[C@H](F)Cl', 'CC(C)(C)c1ccccc1', 'C.C.C', 'CCN.CCO',
 ]
 FILES = ['isomorphism.sdf', 'mcs.sdf', 'standardize.sdf', 'arenes.sdf', 'hbonds.sdf', 'depict.sdf', 'implicit.sdf',
